@@ -61,6 +61,12 @@ def scenario(big: bool = False) -> Any:
         for m in msgs:
             if m["ack"] is None:
                 m["ack"] = "sync"
+        if d.pop("waits"):
+            # the slow task functions wait for ANOTHER task's result through taskiq's client API (wait_result polling the backend)
+            # instead of sleeping: such a message is unfinished - and holds its slot - just the same
+            for m in msgs:
+                if m["kind"] == "async" and m["dur"] and m.get("timeout") is None:
+                    m["waits"] = True
         d["msgs"] = cm.sort_msgs(msgs)
         if not d.pop("has_stop"):
             d["stop"] = None
@@ -85,6 +91,7 @@ def scenario(big: bool = False) -> Any:
         "msgs": st.lists(msg, min_size=0, max_size=30),
         "stop": cm.times(120), "has_stop": st.sampled_from([False, False, False, True]),
         "save_latency": st.sampled_from([0.0, 0.0, 0.1]),
+        "waits": st.sampled_from([False, False, False, True]),
     }).map(fin)
 
 
